@@ -167,12 +167,36 @@ func calleeName(c *ssa.CallCommon) string {
 		return c.Method.FullName()
 	}
 	if f := c.StaticCallee(); f != nil {
-		return fnName(f)
+		return normAtomic(fnName(f))
 	}
 	if b, ok := c.Value.(*ssa.Builtin); ok {
 		return "builtin." + b.Name()
 	}
 	return ""
+}
+
+// normAtomic maps the method form of the typed atomics onto the function form of the same operation:
+// (*sync/atomic.Uint32).CompareAndSwap → sync/atomic.CompareAndSwapUint32. The receiver is argument 0 in SSA, exactly
+// where the function form has the address, so rules written for either form see the same call shape.
+func normAtomic(n string) string {
+	const pre = "(*sync/atomic."
+	if !strings.HasPrefix(n, pre) {
+		return n
+	}
+	rest := n[len(pre):] // "Uint32).CompareAndSwap"
+	i := strings.Index(rest, ").")
+	if i < 0 {
+		return n
+	}
+	typ, op := rest[:i], rest[i+2:]
+	switch typ {
+	case "Uint32", "Int32", "Uint64", "Int64", "Uintptr":
+		switch op {
+		case "Load", "Store", "Add", "Swap", "CompareAndSwap", "And", "Or":
+			return "sync/atomic." + op + typ
+		}
+	}
+	return n
 }
 
 // fnName is a stable function name without the module prefix.
@@ -545,11 +569,64 @@ func GuardsOf(b *ssa.BasicBlock) []Guard {
 		t, f := edgeControls(d, d.Succs[0], b), edgeControls(d, d.Succs[1], b)
 		if t && !f {
 			gs = append(gs, Guard{iff.Cond, true, iff})
+			gs = append(gs, shortCircuitGuards(iff.Cond, true, iff, 0)...)
 		} else if f && !t {
 			gs = append(gs, Guard{iff.Cond, false, iff})
+			gs = append(gs, shortCircuitGuards(iff.Cond, false, iff, 0)...)
 		}
 	}
 	return gs
+}
+
+func containsBlock(bs []*ssa.BasicBlock, b *ssa.BasicBlock) bool {
+	for _, x := range bs {
+		if x == b {
+			return true
+		}
+	}
+	return false
+}
+
+// shortCircuitGuards: when a && / || expression is materialised as a value, go/ssa builds φ(c, false) (resp. φ(true, c)).
+// If that φ is known to be `pol` and every constant edge carries !pol, control came through the single non-constant
+// edge with c == pol, so c's own condition and the guards of the block that evaluated it hold as well.
+func shortCircuitGuards(cond ssa.Value, pol bool, iff *ssa.If, depth int) []Guard {
+	for {
+		if u, ok := cond.(*ssa.UnOp); ok && u.Op == token.NOT {
+			cond, pol = u.X, !pol
+			continue
+		}
+		break
+	}
+	ph, ok := cond.(*ssa.Phi)
+	if !ok || depth > 4 {
+		return nil
+	}
+	idx := -1
+	for k, e := range ph.Edges {
+		if b, isB := boolConst(e); isB {
+			if b == pol {
+				return nil // a constant edge can produce pol: nothing follows
+			}
+			continue
+		}
+		if idx >= 0 {
+			return nil
+		}
+		idx = k
+	}
+	if idx < 0 {
+		return nil
+	}
+	e := ph.Edges[idx]
+	out := []Guard{{e, pol, iff}}
+	out = append(out, shortCircuitGuards(e, pol, iff, depth+1)...)
+	pred := ph.Block().Preds[idx]
+	out = append(out, GuardsOf(pred)...)
+	if pi, ok := pred.Instrs[len(pred.Instrs)-1].(*ssa.If); ok && len(pred.Succs) == 2 && pred.Succs[0] != pred.Succs[1] {
+		out = append(out, Guard{pi.Cond, pred.Succs[0] == ph.Block(), pi})
+	}
+	return out
 }
 
 // Atom is a normalised condition.
